@@ -170,3 +170,50 @@ Proof.
   cbv zeta. intros Ho Hb D. unfold udp_receive_from, uq_recv, uq_of. cbn [uq_size uq_inq]. rewrite Ho, Hb, D. cbn [negb].
   destruct (u_inq (get_udp w s)); reflexivity.
 Qed.
+
+(* ---------- sending ---------- *)
+(* a datagram nobody is bound to receive is accepted and discarded: no packet, no
+   capture record, no pacing - the state does not change at all *)
+Theorem udp_send_to_nobody_changes_nothing cx s bufs dst w :
+  let u := get_udp w s in
+  ep_eqb (u_bound u) ep_none = false -> 0 < total_len bufs <= 65535 ->
+  u_df u && (path_mtu w (e_addr (u_bound u)) (e_addr dst) <? total_len bufs) = false ->
+  u_next_send u - cnow cx <= u_sqt u ->
+  reg_find (w_udp_reg w) dst = None ->
+  udp_send_to cx s bufs dst w = (EC_OK, total_len bufs, w, []).
+Proof.
+  cbv zeta. intros Hb Ht Hd Hq Hr. unfold udp_send_to. rewrite Hb. cbn iota beta.
+  replace (total_len bufs =? 0) with false by (symmetry; apply Z.eqb_neq; lia).
+  replace (65535 <? total_len bufs) with false by (symmetry; apply Z.ltb_ge; lia).
+  rewrite Hd. replace (u_sqt (get_udp w s) <? u_next_send (get_udp w s) - cnow cx) with false by (symmetry; apply Z.ltb_ge; lia).
+  rewrite Hr. reflexivity.
+Qed.
+
+(* otherwise exactly one packet is built: the concatenation of the send buffers, from the
+   sender's bound endpoint, routed to the socket that holds the destination binding NOW, and
+   exactly one capture record is written for it *)
+Theorem udp_send_to_builds_one_datagram cx s bufs dst w d :
+  let u := get_udp w s in
+  ep_eqb (u_bound u) ep_none = false -> 0 < total_len bufs <= 65535 ->
+  u_df u && (path_mtu w (e_addr (u_bound u)) (e_addr dst) <? total_len bufs) = false ->
+  u_next_send u - cnow cx <= u_sqt u ->
+  reg_find (w_udp_reg w) dst = Some d ->
+  let du := get_udp w d in
+  let hops := assoc_addr (w_out w) (e_addr (u_bound u)) ++ w_route w ++ assoc_addr (w_in w) (e_addr (u_bound du))
+              ++ match u_fwd du with Some f => [f] | None => [] end in
+  let p := mk_packet PPayload 0 (concat bufs) (u_bound u) 28 hops None 0 None in
+  let w0 := set_udp (log_cap w {| c_tcp := false; c_now := cnow cx; c_src := a_val (e_addr (u_bound u));
+                                   c_dst := a_val (e_addr dst); c_sport := e_port (u_bound u);
+                                   c_dport := e_port dst; c_seq := 0; c_payload := concat bufs |})
+                    s (u <| u_next_send := Z.max (cnow cx) (u_next_send u) |>) in
+  udp_send_to cx s bufs dst w =
+    (let (w1, c) := cfwd cx p w0 in
+     (EC_OK, total_len bufs,
+      set_udp w1 s (get_udp w1 s <| u_next_send := u_next_send (get_udp w1 s) + 10 * pkt_size p |>), c)).
+Proof.
+  cbv zeta. intros Hb Ht Hd Hq Hr. unfold udp_send_to. rewrite Hb. cbn iota beta.
+  replace (total_len bufs =? 0) with false by (symmetry; apply Z.eqb_neq; lia).
+  replace (65535 <? total_len bufs) with false by (symmetry; apply Z.ltb_ge; lia).
+  rewrite Hd. replace (u_sqt (get_udp w s) <? u_next_send (get_udp w s) - cnow cx) with false by (symmetry; apply Z.ltb_ge; lia).
+  rewrite Hr. reflexivity.
+Qed.
